@@ -31,6 +31,10 @@ SLICE_PRIMS = list(INTS) + list(FLOATS) + ["bool", "DiplomatChar", "DiplomatByte
 
 # every C11 / C++20 keyword that is an ordinary identifier for rustc (the escaping tables of the C / C++ formatters are looked up by name)
 C_FAMILY_KEYWORDS = ['_Alignas', '_Alignof', '_Atomic', '_Bool', '_Complex', '_Generic', '_Imaginary', '_Noreturn', '_Static_assert', '_Thread_local', 'alignas', 'alignof', 'and', 'and_eq', 'asm', 'atomic_cancel', 'atomic_commit', 'atomic_noexcept', 'auto', 'bitand', 'bitor', 'bool', 'case', 'catch', 'char', 'char16_t', 'char32_t', 'char8_t', 'class', 'co_await', 'co_return', 'co_yield', 'compl', 'concept', 'const_cast', 'consteval', 'constexpr', 'constinit', 'decltype', 'default', 'delete', 'double', 'dynamic_cast', 'explicit', 'export', 'float', 'friend', 'goto', 'inline', 'int', 'long', 'mutable', 'namespace', 'new', 'noexcept', 'not', 'not_eq', 'nullptr', 'operator', 'or', 'or_eq', 'private', 'protected', 'public', 'reflexpr', 'register', 'reinterpret_cast', 'requires', 'restrict', 'short', 'signed', 'sizeof', 'static_assert', 'static_cast', 'switch', 'synchronized', 'template', 'this', 'thread_local', 'throw', 'typedef', 'typeid', 'typename', 'union', 'unsigned', 'using', 'void', 'volatile', 'wchar_t', 'xor', 'xor_eq']
+# C++ keywords that are *typedef names* in C (<uchar.h>, <stddef.h>), which the generated C headers themselves use: a parameter of that name
+# is a separate matter (known finding F61, probed by C09), kept out of the general pool
+TYPEDEF_LIKE = ["char8_t", "char16_t", "char32_t", "wchar_t"]
+C_FAMILY_KEYWORDS = [k for k in C_FAMILY_KEYWORDS if k not in TYPEDEF_LIKE]
 KEYWORD_PARAMS = ["this", "int", "class", "default", "new", "register", "template", "char", "double", "typename",
                   "namespace", "delete", "operator", "signed", "union", "volatile", "auto", "switch", "short", "long"] + C_FAMILY_KEYWORDS + ["implements", "interface", "package", "arguments", "eval"] + [
                   # not reserved themselves, but become reserved words once a backend re-cases them (lowerCamelCase drops the underscores)
